@@ -54,6 +54,8 @@ class Gen:
                 "pie": fmt == "elf" and rng.random() < 0.5,
                 "secs": [], "externs": ["ext0", "ext1"], "funcs": [],
                 "entry": None, "edits": []}
+        case["bintype"] = rng.choice([["DYN"], ["DYN"], ["DYN", "PIE"],
+                                      ["DYN", "SHARED"], ["PIE", "DYN"]])
         nblocks = rng.choice([1, 2, 2, 3, 3, 4, 4, 5, 6, 8, 10])
         if self.tier == "thorough" and rng.random() < 0.2:
             nblocks = rng.randrange(8, 15)
